@@ -113,6 +113,9 @@ def judge(op, impl, model):
             detail = f.get("q", "")[-200:]
         if shapes:
             return "reject %s %s text=%s" % (attribute(shapes, m.get("needs", "")), detail, f.get("text", "")[:160])
+        if f.get("text", "").startswith('"match  where '):
+            # no variable of the criteria reached prepareMatch (pattern predicate / update-only variables): `match  where …`
+            return "reject empty-match-pattern %s text=%s" % (detail, f.get("text", "")[:160])
         for tag, cls in (("literal:non-finite-float", "non-finite-float"), ("string-not-in-single-quoted-source-form", "raw-string-literal")):
             if tag in f.get("M", ""):
                 return "reject %s %s text=%s" % (cls, detail, f.get("text", "")[:160])
@@ -162,6 +165,7 @@ KEYS = {
     "parameter-ast-node-as-value": "C10:query.Parameter:ast-node-as-parameter-value",
     "non-finite-float": "C10:format.Literal:non-finite-float-rendered-as-identifier",
     "raw-string-literal": "C10:query.Literal:raw-go-string-emitted-unquoted",
+    "empty-match-pattern": "C10:neo4j.QueryBuilder.prepareMatch:empty-match-pattern",
     "edge-kind-lifted-out-of-or": "C10:neo4j.ExpressionListRewriter:edge-kind-matcher-lifted-out-of-or",
     "edge-kind-lifted-out-of-xor": "C10:neo4j.ExpressionListRewriter:edge-kind-matcher-lifted-out-of-xor",
 }
